@@ -102,7 +102,11 @@ def rule_scope(ck):
                     sinks = [c for c in g.calls() if c.name.endswith("Vec::<T, A>::push") and c.bb in g.after(v.bb)]
                     ok = bool(sinks) and all(_true_only(g, v, s.bb) for s in sinks)
                 else:
-                    sinks = [i for i, j, p, rv, sp in g.assigns() if p == [0] and rv["r"] == "agg" and rv["variant"] == "Some" and i in g.after(v.bb)]
+                    # the candidate is handed out as Some(..): returned from the closure, or stored into the captured result
+                    def _is_candidate(rv):
+                        l = op_local(rv["ops"][0]) if rv["ops"] else None
+                        return l is not None and "FatDieRef" in g.raw["locals"][l][0]
+                    sinks = [i for i, j, p, rv, sp in g.assigns() if rv["r"] == "agg" and rv["variant"] == "Some" and rv["name"].endswith("option::Option") and i in g.after(v.bb) and _is_candidate(rv)]
                     ok = bool(sinks) and all(_true_only(g, v, s) for s in sinks)
                 ck.ob("table.scope_filter", f"{nm}/candidate-only-when-valid", ok, "a variable can be returned although valid_at(pc) is false", g.loc(v.bb), what=f"{nm} shows variables outside their lexical scope")
                 pc = expr_str(expr_of(g, v.args[1]), 6)
@@ -185,7 +189,39 @@ def rule_loclist(ck):
         ck.ob("cmp.loclist", f"{k}/pc-of-exploration-context", "global_pc" in pc and "location" in pc, f"pc = {pc}", c.fn.loc(c.bb))
 
 
+def rule_innermost(ck):
+    """lookup by name must not stop at the first (outermost) valid binding"""
+    prog = ck.prog
+    ck.rule("mpt.innermost_binding", "a name resolves to its innermost live binding: the traversal of the function's DIE subtree is level by level (breadth first), a shadowing `let` opens a block nested into the scope of the shadowed one, so the lookup by name must visit every candidate and keep the last valid one — returning at the first valid match yields the outermost binding")
+    fs = [f for p_, f in prog.fns.items() if re.search(r"FatDieRef<'dbg, .*Function>>?::local_variable$|::local_variable$", p_) and "die_ref" in p_]
+    if not ck.ob("mpt.innermost_binding", "local_variable/exists", len(fs) == 1, f"{len(fs)} candidates", ""):
+        return
+    f = fs[0]
+    ck.saw(f)
+    names = [c.name for c in f.calls()]
+    early = [n for n in names if n.endswith("::for_each_children_recursive_t") or n.endswith("::for_each_children_t")]
+    full = [n for n in names if n.endswith("::for_each_children_recursive")]
+    stops = False
+    for g in [prog.fns[p] for p in prog.closures_of(f.path)]:
+        ck.saw(g)
+        # a closure handed to the early-exit traversal that builds Some(..) stops at the first match
+        for i, j, pl, rv, sp in g.assigns():
+            if pl == [0] and rv["r"] == "agg" and rv.get("variant") == "Some":
+                stops = True
+    ok = bool(full) and not early or (bool(early) and not stops and False)
+    ck.ob("mpt.innermost_binding", "local_variable/visits-every-candidate-keeps-the-last", ok, f"exhaustive traversal: {bool(full)}, early-exit traversal: {bool(early)}, closure returns Some at a match: {stops}", f.loc(), what="`var x` shows the outermost binding of a shadowed name")
+    # the traversal itself is breadth first (queue: pop_front / push_back), which is what makes "last" = "deepest"
+    tr = [g for p_, g in prog.fns.items() if p_.endswith("Die::for_each_children_recursive_t")]
+    if ck.ob("mpt.innermost_binding", "traversal/exists", len(tr) >= 1, "", ""):
+        t = tr[0]
+        ck.saw(t)
+        n2 = [c.name for c in t.calls()]
+        bfs = any(re.search(r"VecDeque::<T, A>::pop_front$", n) for n in n2) and any(re.search(r"VecDeque::<T, A>::push_back$", n) for n in n2)
+        ck.ob("mpt.innermost_binding", "traversal/breadth-first", bfs, "", t.loc())
+
+
 def run(ck):
+    rule_innermost(ck)
     regs.rule_numbering(ck)
     rule_scope(ck)
     rule_frame_regs(ck)
